@@ -6,3 +6,4 @@ import Thanos.Props.C30
 import Thanos.Model.CompactProto
 import Thanos.Lemmas.CompactProto
 import Thanos.Props.C34
+import Thanos.Props.C29
